@@ -330,7 +330,6 @@ func (k ArrayKind) Content(n int) []byte {
 	return b
 }
 
-
 // Representatives: one value (possibly a multi-event sequence) per encoding form, used by the pair sweep: every ordered
 // pair (a, b) is encoded in one document so that state shared between consecutive values (scratch buffers, cursors,
 // pending headers) is exercised.
